@@ -1,6 +1,6 @@
 """C13 - ECDSA glue: signatures canonical / deterministic, verifier exact."""
 CONTRACT_MODULES = ['contracts.keys_sig']
-CONTRACTS = ['bitcoinlib.keys.Signature.create[rfc6979]', 'bitcoinlib.keys.Signature.create[explicit-k]',
+CONTRACTS = ['bitcoinlib.keys.verify[forged-for-offcurve-key-native]', 'bitcoinlib.keys.Signature.create[rfc6979]', 'bitcoinlib.keys.Signature.create[explicit-k]',
              'bitcoinlib.keys.Signature.__init__', 'bitcoinlib.keys.Signature.verify[digest-given]',
              'bitcoinlib.keys.verify[signature-object]', 'bitcoinlib.keys.Signature.parse_bytes[raw64]', 'bitcoinlib.keys.Signature.parse_bytes[der-native]']
 LEVEL = 'proof'
